@@ -6,6 +6,7 @@ mutants of data.
 from __future__ import annotations
 
 import collections
+import collections.abc
 import datetime
 import decimal
 import fractions
@@ -19,6 +20,30 @@ INF = float('inf')
 NAN = float('nan')
 
 
+class BareMapping(collections.abc.Mapping):
+    """The least a mapping can be: the three abstract methods of collections.abc.Mapping and nothing else (no .copy(), no
+    .pop(), not a dict).  pane documents any Mapping as interchange data."""
+    __slots__ = ('_d',)
+
+    def __init__(self, d=()):
+        self._d = dict(d)
+
+    def __getitem__(self, k):
+        return self._d[k]
+
+    def __iter__(self):
+        return iter(self._d)
+
+    def __len__(self):
+        return len(self._d)
+
+    def __repr__(self):
+        return f"BareMapping({self._d!r})"
+
+
+MAPS = (dict, types.MappingProxyType, BareMapping)
+
+
 # ------------------------------------------------------------------ expressions (replayable spelling of a value)
 
 def _ns():
@@ -30,7 +55,7 @@ def _ns():
         'Path': pathlib.Path, 're': re, 'deque': collections.deque, 'Counter': collections.Counter,
         'defaultdict': collections.defaultdict, 'OrderedDict': collections.OrderedDict,
         'mappingproxy': types.MappingProxyType, 'frozenset': frozenset, 'set': set, 'bytearray': bytearray,
-        'complex': complex, 'range': range,
+        'complex': complex, 'range': range, 'BareMapping': BareMapping,
     }
     for n in ('EnumInt', 'EnumStr', 'EnumMixed', 'EnumStrMix', 'EnumIntMix', 'SubStr', 'SubInt', 'SubFloat', 'SubList', 'SubDict'):
         ns[n] = getattr(grammar, n)
@@ -73,6 +98,8 @@ def expr(v) -> str:
         return '{' + ', '.join(f"{expr(k)}: {expr(x)}" for k, x in v.items()) + '}'
     if ty is types.MappingProxyType:
         return f"mappingproxy({expr(dict(v))})"
+    if ty is BareMapping:
+        return f"BareMapping({expr(dict(v))})"
     if ty in (set, frozenset):
         return f"{ty.__name__}([{', '.join(sorted(expr(x) for x in v))}])"
     if ty is collections.deque:
@@ -130,7 +157,7 @@ def ckey(v):
         return (ty.__name__, tuple(ckey(x) for x in v))
     if isinstance(v, (set, frozenset)):
         return (ty.__name__, tuple(sorted((ckey(x) for x in v), key=repr)))
-    if isinstance(v, (dict, types.MappingProxyType)):
+    if isinstance(v, MAPS):
         extra = ()
         if ty is collections.defaultdict:
             extra = (repr(v.default_factory),)
@@ -168,7 +195,7 @@ def ckey_unordered(v):
 
 def _unorder(k):
     if isinstance(k, tuple):
-        if k and k[0] in ('dict', 'mappingproxy', 'OrderedDict', 'defaultdict', 'Counter', 'SubDict') and len(k) >= 2 and isinstance(k[1], tuple):
+        if k and k[0] in ('dict', 'mappingproxy', 'BareMapping', 'OrderedDict', 'defaultdict', 'Counter', 'SubDict') and len(k) >= 2 and isinstance(k[1], tuple):
             items = tuple(sorted((_unorder(i) for i in k[1]), key=repr))
             return (k[0], items) + tuple(k[2:])
         return tuple(_unorder(x) for x in k)
@@ -199,7 +226,7 @@ def kind(v) -> str:
         return 'bytearray'
     if ty in (list, tuple):
         return 'seq'
-    if isinstance(v, (dict, types.MappingProxyType)):
+    if isinstance(v, MAPS):
         return 'map'
     return 'other'
 
@@ -253,6 +280,7 @@ def mutate1(v, atoms=ATOMS, _top=True) -> t.Iterator[t.Any]:
             yield [x for _, x in items]                           # sequence instead of mapping
             yield [[kk, x] for kk, x in items]                    # list of pairs
             yield types.MappingProxyType(dict(items))
+            yield BareMapping(dict(items))
     else:
         for a in atoms:
             if type(a) is not type(v) or a != v:
@@ -289,6 +317,8 @@ def fresh(v):
         return {k: fresh(x) for k, x in v.items()}
     if ty is types.MappingProxyType:
         return types.MappingProxyType({k: fresh(x) for k, x in v.items()})
+    if ty is BareMapping:
+        return BareMapping({k: fresh(x) for k, x in v.items()})
     if ty is bytearray:
         return bytearray(v)
     return v
@@ -316,7 +346,7 @@ def nan_in(v) -> bool:
         return v.is_nan()
     if isinstance(v, (list, tuple, set, frozenset, collections.deque)):
         return any(nan_in(x) for x in v)
-    if isinstance(v, (dict, types.MappingProxyType)):
+    if isinstance(v, MAPS):
         return any(nan_in(k) or nan_in(x) for k, x in v.items())
     return False
 
